@@ -25,4 +25,7 @@ run T3 NONE || fail=1
 run T4 "nil dereference" || fail=1
 run T5 NONE || fail=1
 run T6 NONE || fail=1
+run T7 notalways || fail=1
+run T8 NONE || fail=1
+run T9 NONE || fail=1
 exit $fail
